@@ -447,3 +447,148 @@ func ownerName(all []FieldAccess, f *types.Var) string {
 }
 
 var _ = strings.Contains
+
+// LockPairing: every Lock/RLock is released on every path to a return -- by a
+// deferred unlock registered after it, or by an explicit unlock that every
+// path from the lock to a return passes. A mutex left locked on one exit
+// blocks the next locker forever (sync.Mutex.Lock cannot be cancelled).
+type PairFinding struct {
+	OK     bool
+	Fn     *ssa.Function
+	Pos    ssa.Instruction
+	Mutex  string
+	Detail string
+}
+
+func LockPairing(p *Program, rels []string) []PairFinding {
+	var out []PairFinding
+	for _, rel := range rels {
+		for _, fn := range p.KetoFuncs(rel) {
+			ops := lockOps(fn)
+			for _, l := range ops {
+				if (l.kind != "Lock" && l.kind != "RLock") || l.defer_ {
+					continue
+				}
+				want := "Unlock"
+				if l.kind == "RLock" {
+					want = "RUnlock"
+				}
+				matches := func(u lockOp) bool { return u.kind == want && u.base == l.base && u.mutex == l.mutex }
+				// a deferred unlock after the lock that the lock dominates... (defer registered on every path from the lock)
+				deferred := false
+				for _, u := range ops {
+					if matches(u) && u.defer_ && InstrDominates(l.ins, u.ins) {
+						// the defer must be registered before any return reachable from the lock: it is, when it
+						// post-dominates the lock within its block chain; accept the usual `Lock(); defer Unlock()` shape
+						// (same block) and defers in a block every path from the lock passes
+						if u.ins.Block() == l.ins.Block() {
+							deferred = true
+						} else if mustPass(l.ins, u.ins) {
+							deferred = true
+						}
+					}
+				}
+				if deferred {
+					out = append(out, PairFinding{OK: true, Fn: fn, Pos: l.ins, Mutex: l.mutex, Detail: "released by a deferred " + want + " on every exit"})
+					continue
+				}
+				unlockBlocks := map[*ssa.BasicBlock]int{}
+				for _, u := range ops {
+					if matches(u) && !u.defer_ {
+						idx := instrIndex(u.ins)
+						if cur, ok := unlockBlocks[u.ins.Block()]; !ok || idx < cur {
+							unlockBlocks[u.ins.Block()] = idx
+						}
+					}
+				}
+				// search for a return reachable from the lock without passing an unlock
+				lb, li := l.ins.Block(), instrIndex(l.ins)
+				var leak ssa.Instruction
+				if ui, ok := unlockBlocks[lb]; !(ok && ui > li) {
+					seen := map[*ssa.BasicBlock]bool{}
+					var walk func(b *ssa.BasicBlock)
+					walk = func(b *ssa.BasicBlock) {
+						if seen[b] || leak != nil {
+							return
+						}
+						seen[b] = true
+						if _, ok := unlockBlocks[b]; ok {
+							return
+						}
+						if len(b.Instrs) > 0 {
+							switch b.Instrs[len(b.Instrs)-1].(type) {
+							case *ssa.Return:
+								leak = b.Instrs[len(b.Instrs)-1]
+								return
+							}
+						}
+						for _, s := range b.Succs {
+							walk(s)
+						}
+					}
+					if len(lb.Instrs) > 0 {
+						if ret, isRet := lb.Instrs[len(lb.Instrs)-1].(*ssa.Return); isRet {
+							leak = ret
+						}
+					}
+					for _, s := range lb.Succs {
+						walk(s)
+					}
+				}
+				if leak != nil {
+					out = append(out, PairFinding{OK: false, Fn: fn, Pos: leak, Mutex: l.mutex,
+						Detail: fmt.Sprintf("%s.%s() at %s is not released on the path to this return (no deferred %s, and this path passes no %s): the next %s on that object blocks forever, and cancellation cannot interrupt it", l.mutex, l.kind, p.Pos(l.ins.Pos()), want, want, l.kind)})
+				} else {
+					out = append(out, PairFinding{OK: true, Fn: fn, Pos: l.ins, Mutex: l.mutex, Detail: "every path from the lock to a return passes " + want})
+				}
+			}
+		}
+	}
+	sort.Slice(out, func(i, j int) bool {
+		if FuncName(out[i].Fn) != FuncName(out[j].Fn) {
+			return FuncName(out[i].Fn) < FuncName(out[j].Fn)
+		}
+		return out[i].Pos.Pos() < out[j].Pos.Pos()
+	})
+	return out
+}
+
+func instrIndex(ins ssa.Instruction) int {
+	for i, x := range ins.Block().Instrs {
+		if x == ins {
+			return i
+		}
+	}
+	return -1
+}
+
+// mustPass: every path from a to a return passes b's block.
+func mustPass(a, b ssa.Instruction) bool {
+	target := b.Block()
+	seen := map[*ssa.BasicBlock]bool{}
+	ok := true
+	var walk func(x *ssa.BasicBlock)
+	walk = func(x *ssa.BasicBlock) {
+		if seen[x] || !ok {
+			return
+		}
+		seen[x] = true
+		if x == target {
+			return
+		}
+		if len(x.Succs) == 0 {
+			ok = false
+			return
+		}
+		for _, s := range x.Succs {
+			walk(s)
+		}
+	}
+	if a.Block() == target {
+		return true
+	}
+	for _, s := range a.Block().Succs {
+		walk(s)
+	}
+	return ok
+}
